@@ -60,6 +60,9 @@ def check_module_bindings(tree):
     for name in BUILTINS_USED:
         if name in bound:
             bad(f'builtin {name} is shadowed at module level')
+    for name in ('safe_contextmanager', 'safe_async_contextmanager'):
+        if bound.get(name) != [('<def>', name, 0)]:
+            bad(f'{name} is not bound exactly once, by its def (found {bound.get(name)})')
 
 
 def gcond(node, p):
